@@ -354,6 +354,85 @@ loop§:
 	lg.Printf("x %d", 1)
 	lg.Println("y")`,
 		}, min: 3},
+	{kind: "fmt-expr-position", weight: 9, imports: []string{"fmt", "strings"},
+		decls: `type st§ struct {
+	A string
+	B error
+}
+
+func rv§() (string, error) { return fmt.Sprint("r"), fmt.Errorf("e%d", §) }
+
+func (s st§) with(a string) st§ { s.A += a; return s }
+`,
+		lines: []string{
+			`m§ := map[string]int{fmt.Sprint("k", §): 1, "x": len(fmt.Sprint(22))}
+	fmt.Println(m§)`,
+			`fmt.Println([]string{"a", "b"}[len(fmt.Sprint(1))], map[string]int{"7": 3}[fmt.Sprint(7)])`,
+			`fmt.Println("abcdef"[len(fmt.Sprint(1)):len(fmt.Sprint(123))+1], []int{1, 2, 3, 4}[len(fmt.Sprint(1)):len(fmt.Sprint(12)):len(fmt.Sprint(123))])`,
+			`switch "1" {
+	case fmt.Sprint(2), fmt.Sprint(1):
+		fmt.Println("case hit")
+	}`,
+			`switch fmt.Sprint(§) {
+	case "x":
+	default:
+		fmt.Println("tag default")
+	}`,
+			`ch§ := make(chan string, 1)
+	ch§ <- fmt.Sprint("sent", §)
+	fmt.Println(<-ch§)
+	select {
+	case ch§ <- fmt.Sprintf("sel%d", §):
+	default:
+	}
+	fmt.Println(<-ch§)`,
+			`func() {
+		defer fmt.Println("deferred", fmt.Sprint(1))
+		defer func() { fmt.Println(fmt.Sprint("deferred closure")) }()
+	}()`,
+			`done§ := make(chan bool)
+	go func(s string) {
+		fmt.Println("in go", s)
+		done§ <- true
+	}(fmt.Sprint("arg"))
+	<-done§`,
+			`fmt.Println(rv§())`,
+			`fmt.Println(st§{A: fmt.Sprint("a"), B: fmt.Errorf("b")}, st§{fmt.Sprint(1), nil}, &st§{A: fmt.Sprint("p")}, []st§{{A: fmt.Sprint("n")}}, [...]string{1: fmt.Sprint("i")})`,
+			`fmt.Println(map[string]st§{fmt.Sprint("mk"): {A: fmt.Sprint("mv")}}, map[st§]bool{{A: fmt.Sprint("sk")}: true})`,
+			`cl§ := func() string { return fmt.Sprint("cl") }
+	fmt.Println(cl§(), func(s string) string { return s + fmt.Sprint("!") }(fmt.Sprint("iife")))`,
+			`fmt.Println(fmt.Errorf("e%d", §).Error(), st§{}.with(fmt.Sprint("w")).A)
+	ef§ := fmt.Errorf("mv").Error
+	rp§ := strings.NewReplacer("a", fmt.Sprint("b")).Replace
+	fmt.Println(ef§(), rp§("aa"))`,
+			`for _, c := range fmt.Sprint("ab") {
+		fmt.Println(string(c))
+	}
+	for i := len(fmt.Sprint(1)); i < len(fmt.Sprint(123)); i += len(fmt.Sprint(1)) {
+		fmt.Println("loop", i)
+	}`,
+			`if s := fmt.Sprint(1); s == fmt.Sprint(1) && len(fmt.Sprint(12)) > 1 {
+		fmt.Println("if", s)
+	} else if fmt.Sprint(2) == "3" {
+		fmt.Println("never")
+	}`,
+			`fmt.Println(interface{}(fmt.Sprint("t")).(string), -len(fmt.Sprint(1)), (fmt.Sprint("p")), *(&[]string{fmt.Sprint("s")}[0]), !(fmt.Sprint(1) == "2"))
+	fmt.Println([]interface{}{fmt.Sprint("v"), 1}...)`,
+			`acc§ := ""
+	acc§ += fmt.Sprint(1)
+	var typed§ string = fmt.Sprintf("%02d", §)
+	n§, e§ := len(fmt.Sprint(12)), fmt.Errorf("x")
+	fmt.Println(acc§, typed§, n§, e§)`,
+			`switch x := interface{}(fmt.Sprint(1)).(type) {
+	case string:
+		fmt.Println("ts", x)
+	}`,
+			`lb§:
+	for {
+		fmt.Println(fmt.Sprint("labeled"))
+		break lb§
+	}`,
+		}, min: 6},
 	{kind: "globals", weight: 4, imports: []string{"fmt"},
 		decls: `var g§ = fmt.Sprintf("g%d", §)
 
@@ -381,7 +460,77 @@ var (
 	fmt.Println("after")`}, min: 1},
 }
 
+// chainUnit: call statements over selector chains: root of every kind (identifier, call result,
+// index, parenthesis, type assertion, composite literal, map index) × depth 1..3 × unexported /
+// exported methods and func-typed fields × 0 / 1 / n arguments.
+func chainUnit(r *vh.Rand, idx int) *unit {
+	decls := `type ct§ struct {
+	n  int
+	in *ct§
+	h  func()
+	g  func(int)
+}
+
+func (c *ct§) inc()             { c.n++; fmt.Println("inc", c.n) }
+func (c *ct§) Bump()            { c.n += 10; fmt.Println("Bump", c.n) }
+func (c *ct§) add(d int) *ct§   { c.n += d; fmt.Println("add", c.n); return c }
+func (c *ct§) Add3(a, b, d int) { c.n += a + b + d; fmt.Println("Add3", c.n) }
+func (c *ct§) self() *ct§       { return c }
+
+type cn§ struct {
+	cnt  *ct§
+	hf   func()
+	kids []*cn§
+}
+
+func (c *cn§) touch()      { fmt.Println("touch", c.cnt.n) }
+func (c *cn§) Poke(k int)  { fmt.Println("Poke", c.cnt.n+k) }
+
+func nc§() *ct§ {
+	c := &ct§{}
+	c.in = c
+	c.h = func() { fmt.Println("h", c.n) }
+	c.g = func(k int) { fmt.Println("g", c.n+k) }
+	return c
+}
+
+func nn§() *cn§ {
+	c := &cn§{cnt: nc§()}
+	c.hf = func() { fmt.Println("hf", c.cnt.n) }
+	c.kids = []*cn§{c}
+	return c
+}
+
+var root§ = nn§()
+
+func get§() *cn§ { return root§ }
+`
+	roots := []string{"r", "get§()", "rs[0]", "(r)", "ri.(*cn§)", "(&cn§{cnt: nc§(), kids: root§.kids, hf: root§.hf})", "mp[\"k\"]", "cn§{cnt: nc§(), kids: root§.kids, hf: root§.hf}", "get§().kids[0]", "(*pr)"}
+	paths := []string{".cnt", ".cnt.in", ".cnt.self()", ".cnt.in.in", ".kids[0].cnt", ".cnt.self().in"}
+	members := []string{"inc()", "Bump()", "h()", "add(2)", "Add3(1, 2, 3)", "g(5)", "self().inc()", "add(1).add(2)"}
+	own := []string{"touch()", "Poke(4)", "hf()"}
+	var b strings.Builder
+	b.WriteString("\tr := root§\n\trs := []*cn§{root§}\n\tvar ri interface{} = root§\n\tmp := map[string]*cn§{\"k\": root§}\n\tpr := &r\n\t_, _, _, _, _ = r, rs, ri, mp, pr\n")
+	n := 14 + r.Intn(10)
+	for i := 0; i < n; i++ {
+		root := roots[r.Intn(len(roots))]
+		if r.Chance(25) {
+			if strings.HasPrefix(root, "cn§{") { // touch needs a pointer receiver on an addressable value
+				root = "get§()"
+			}
+			fmt.Fprintf(&b, "\t%s.%s\n", root, own[r.Intn(len(own))])
+			continue
+		}
+		fmt.Fprintf(&b, "\t%s%s.%s\n", root, paths[r.Intn(len(paths))], members[r.Intn(len(members))])
+	}
+	src := "package main\n\nimport \"fmt\"\n\n" + decls + "\nfunc unit§() {\n" + b.String() + "}\n"
+	return &unit{idx: idx, kind: "call-chain", name: fmt.Sprintf("u%d", idx), src: inst(src, idx)}
+}
+
 func templateUnit(r *vh.Rand, idx int) *unit {
+	if r.Chance(8) {
+		return chainUnit(r, idx)
+	}
 	total := 0
 	for _, t := range templates {
 		total += t.weight
